@@ -348,14 +348,16 @@ def r4(prog, rep):
 
 def cli_factories(script):
     """factories whose `.defaults` build the accepted-key list of a script"""
-    out = []
+    facs_seen = []
+    uses_defaults = any(isinstance(n, ast.Attribute) and n.attr == "defaults" for n in ast.walk(script.tree))
     for n in ast.walk(script.tree):
-        if isinstance(n, ast.Attribute) and n.attr == "defaults":
-            d = dotted(n.value)
-            if d and d.endswith("options_factory"):
+        if isinstance(n, ast.Attribute) and n.attr.endswith("options_factory") and uses_defaults:
+            d = dotted(n)
+            if d:
                 parts = d.split(".")
-                out.append(parts[-2] + "." + parts[-1])
-    return out
+                if len(parts) >= 2 and parts[-2] + "." + parts[-1] not in facs_seen:
+                    facs_seen.append(parts[-2] + "." + parts[-1])
+    return facs_seen
 
 
 def _enclosing_body(fnode, stmt):
